@@ -346,4 +346,19 @@ def c13(ctx):
     return res
 
 
-PLUGINS = {"C13": c13, "C08": c08, "C11": c11, "C02": c02, "C06": c06, "C10": c10, "C05": c05, "C09": c09, "C04": c04, "C07": c07, "C12": c12}
+def c15(ctx):
+    """C15 compaction: sources from generated histories (deep nesting, inline and paged buckets, empty buckets, empty and multi-page values, sequences, 5 page sizes); library Compact and the
+    command-line tool (run in process through the command package) for limits 0,1,2,7,100,4096,65536,2^40; destination dump vs source dump vs the extracted Compact.v run on the DECODED
+    source image; Tx.Check of the destination; SHA-256 of the source before and after every run."""
+    res = Result()
+    res.rule = "one case = one source database and 12 compactions of it; distinct by SHA-256 of the source; non-trivial if the source has nesting depth >= 3, an empty bucket, an empty value, a multi-page value or a non-zero sequence"
+    with ctx:
+        n = "12" if (ctx.tier == "quick" or ctx.budget_s) else "400"
+        shards = 8 if ctx.tier == "quick" else 16
+        runs = run_sharded(ctx, "c15", shards, lambda i: ["-seed", str(ctx.seed * 1000 + i), "-n", n, "-dir", "{dir}"], ctx.budget_s or (900 if ctx.tier == "quick" else 3000))
+        for r in runs:
+            absorb(res, "C15", *r)
+    return res
+
+
+PLUGINS = {"C15": c15, "C13": c13, "C08": c08, "C11": c11, "C02": c02, "C06": c06, "C10": c10, "C05": c05, "C09": c09, "C04": c04, "C07": c07, "C12": c12}
